@@ -1,6 +1,7 @@
 SPECIFICATION Spec
 CONSTANTS Mech = "spec"
  SessionKey = "K"
+ HqBound = 0
 CONSTRAINT Track
 POSTCONDITION Accepted
 CHECK_DEADLOCK FALSE
